@@ -355,6 +355,9 @@ def history_case(draw, big=False):
     cfg = draw(cfgs(FILL_KINDS))
     if big:
         cfg["n"] = draw(st.integers(1, 9))
+    if cfg["yor"] and draw(st.booleans()):
+        # with yield_on_remainder neither buffer has to be given
+        cfg["mode"] = "none"
     nops = draw(st.integers(0, 90 if big else 30))
     # request probability varies per case so that long runs of fills occur
     preq = draw(st.sampled_from([1, 2, 3, 5]))
@@ -700,7 +703,60 @@ def judge_ctor(case):
     got = list(fr.run(iter([1, 2, 3, 4, 5, 6, 7])))
     if norm(got) != norm(exp):
         raise Violation("run-differs-from-blockwise-reference", "%s: %s vs %s" % (case, short(got), short(exp)))
+    if kind in FILL_KINDS:
+        # ... and under fill/request too (requests at aligned and misaligned points)
+        cfg["mode"] = "in" if case["bi"] else "out" if case["bo"] else "none"
+        fr2 = FillRequest(make_el(kind), **kw)
+        ref = RefFR(cfg)
+        for i, v in enumerate([1, 2, 3, 4, 5, 6, 7]):
+            try:
+                fr2.fill(v)
+                ref.fill(v)
+                if i in (1, 2, 6):
+                    g, e = list(fr2.request()), ref.request()
+                    if norm(g) != norm(e):
+                        raise Violation("request-differs-from-reference", "%s: request after %d fills yields %s, expected %s" % (case, i + 1, short(g), short(e)))
+            except (AttributeError, TypeError, IndexError, KeyError) as exc:
+                raise Violation("accepted-configuration-fails-under-fill-request",
+                                "%s: %s: %s after %d fills" % (case, type(exc).__name__, exc, i + 1))
     return {"nontrivial": True, "classes": ["accepted"]}
+
+
+# ---- many blocks between two requests ---------------------------------------------------------------
+
+@st.composite
+def many_case(draw):
+    n = draw(st.sampled_from([1, 1, 2, 3]))
+    nblocks = draw(st.sampled_from([1001, 1100, 1500, 2100, 3100]))
+    return {"n": n, "mode": draw(st.sampled_from(["in", "out"])), "len": n * nblocks + draw(st.integers(0, n - 1)),
+            "kind": draw(st.sampled_from(["fc_len", "fc_store"])), "reset": draw(st.booleans()),
+            "driver": draw(st.sampled_from(["fill_request", "split_default_bufsize", "split_none", "run"]))}
+
+
+def judge_many(case):
+    """a block size far below the number of values delivered before one request (a Split with its default
+    bufsize of 1000 around FillRequest(bufsize=1)): every value is accounted for, the call returns"""
+    cfg = {"kind": case["kind"], "n": case["n"], "mode": case["mode"], "reset": case["reset"], "yor": False}
+    flow = [i % 10 for i in range(case["len"])]
+    fr = make_fr(cfg)
+    exp, _ = ref_run(cfg, flow)
+    try:
+        if case["driver"] == "fill_request":
+            for v in flow:
+                fr.fill(v)
+            got = list(fr.request())
+        elif case["driver"] == "run":
+            got = list(fr.run(iter(flow)))
+        else:
+            sp = Split([fr]) if case["driver"] == "split_default_bufsize" else Split([fr], bufsize=None)
+            got = list(sp.run(iter(flow)))
+    except RecursionError as e:
+        raise Violation("fill-request-fails-with-many-buffered-blocks",
+                        "%s, %d values (%s): RecursionError" % (cfg, len(flow), case["driver"]))
+    if norm(got) != norm(exp):
+        raise Violation("many-blocks-differ-from-run-reference", "%s, %d values (%s): %d results, expected %d" % (
+            cfg, len(flow), case["driver"], len(got), len(exp)))
+    return {"nontrivial": True, "classes": ["driver:" + case["driver"], "mode:" + case["mode"]]}
 
 
 CHECKS = [
@@ -717,6 +773,9 @@ CHECKS = [
     Check("split", judge_split, strategy=lambda tier: split_case(), quick=2500, thorough=100000,
           rule="FillRequest as a bare Split branch, beside a sibling, inside a tuple branch with pre/post elements, in a common-type Split driven by fill/request, and FillRequestSeq.run; Split bufsize 1..2n+1, 1000, None; "
                "oracle: reference model under the schedule Split imposes and (yield_on_remainder off) the run reference on the whole flow. Non-trivial = Split bufsize neither dividing nor divided by the block size, flow longer than a block."),
+    Check("many_blocks", judge_many, strategy=lambda tier: many_case(), quick=40, thorough=600,
+          rule="1001-3100 blocks of 1-3 values delivered before a single request (directly, through a Split with its default bufsize 1000 or bufsize None, or by run): "
+               "results equal the block-wise run reference, no RecursionError. All cases count as non-trivial."),
     Check("constructor", judge_ctor, cases=ctor_cases, exhaustive=True,
           rule="every combination of 18 element kinds x bufsize {1,3,0,-1,1.5,2.0} x buffer_input x buffer_output x reset x yield_on_remainder: accepted iff valid, "
                "LenaTypeError/LenaValueError otherwise; accepted ones run a 7-value flow correctly. All cases count as non-trivial."),
